@@ -15,6 +15,8 @@ EVERY variant of `BuiltInFunctionKind` (src/values.rs) and `BuiltInMethodKind`
     arm, is it a top-level `if` whose block returns
     `Err((.., EvalError::ForbiddenInSandbox(..)))`; its offset, and the offset
     and callee of the first *textually effectful* Rust call in the arm;
+  * the first effectful call reached through crate-level free helper functions called
+    from the arm (transitively; `Type::f` / `x.f()` calls are not followed), with the chain;
   * every `std::...` path named in the arm.
 
 "Dominated by" is approximated by TEXTUAL ORDER inside the arm, restricted to
@@ -225,6 +227,75 @@ def first_effect(blank_arm):
     return best
 
 
+# ---------------------------------------------------------------------------
+# Effects reached through helper functions.  Free functions of the crate (definitions that
+# start in column 0) called from an arm by bare or lower-case-module-qualified name are
+# followed transitively; the first one whose body matches an effect pattern is reported with
+# the call chain.  Associated functions / methods (`Type::f(..)`, `x.f(..)`) are NOT followed.
+
+def crate_free_functions(repo):
+    fns = {}
+    for d, _, fs in os.walk(os.path.join(repo, "src")):
+        for f in sorted(fs):
+            if not f.endswith(".rs"):
+                continue
+            rel = os.path.relpath(os.path.join(d, f), os.path.join(repo, "src"))
+            if rel == "verif_hooks.rs":
+                continue
+            bl = blank_comments_and_strings(open(os.path.join(d, f), encoding="utf-8").read())
+            m = re.search(r"#\[cfg\(test\)\]\s*mod\s+\w+\s*\{", bl)
+            if m:
+                bl = bl[:m.start()]
+            for m in re.finditer(r"^(?:pub(?:\([^)]*\))?\s+)?(?:async\s+)?fn\s+(\w+)\s*(?:<[^>{]*>)?\s*\(", bl, re.M):
+                try:
+                    q = match_close(bl, m.end() - 1, "(", ")")
+                    k = q + 1
+                    while k < len(bl) and bl[k] not in "{;":
+                        k += 1
+                    if k >= len(bl) or bl[k] == ";":
+                        continue
+                    e = match_close(bl, k)
+                except TranslatorError:
+                    continue
+                fns.setdefault(m.group(1), []).append(bl[k:e + 1])
+    return fns
+
+
+def free_calls(body, fns):
+    res = set()
+    for m in re.finditer(r"(?<![\.\w:])(?:[a-z_]\w*::)*([a-z_]\w*)\s*\(", body):
+        if m.group(1) in fns:
+            res.add(m.group(1))
+    return res
+
+
+def helper_effect_finder(repo):
+    fns = crate_free_functions(repo)
+    direct = {}
+    for n in sorted(fns):
+        for body in fns[n]:
+            e = first_effect(body)
+            if e and n not in direct:
+                direct[n] = e[2]
+    graph = {n: set().union(*[free_calls(b, fns) for b in bodies]) for n, bodies in fns.items()}
+
+    def reach(arm_blank):
+        seen = set()
+        todo = [(c, [c]) for c in sorted(free_calls(arm_blank, fns))]
+        while todo:
+            n, path = todo.pop(0)
+            if n in seen:
+                continue
+            seen.add(n)
+            if n in direct:
+                return " > ".join(path + [direct[n]])
+            for c in sorted(graph.get(n, ())):
+                if c not in seen:
+                    todo.append((c, path + [c]))
+        return None
+    return reach
+
+
 def coq_str(s):
     return '"' + s.replace('"', '""') + '"'
 
@@ -311,7 +382,7 @@ def split_top_commas(s):
     return parts
 
 
-def rows_for(eval_raw, eval_blank, fn, enum, variants):
+def rows_for(eval_raw, eval_blank, fn, enum, variants, reach):
     b, e = find_fn_body(eval_blank, fn)
     m = re.compile(r"\bmatch\s+kind\s*\{").search(eval_blank, b, e)
     if not m:
@@ -339,6 +410,7 @@ def rows_for(eval_raw, eval_blank, fn, enum, variants):
     for v in variants:
         s, t, shared = seen[v]
         info = analyse_arm(eval_raw[s:t], eval_blank[s:t])
+        info["helper_effect"] = reach(eval_blank[s:t])
         info["shared_arm"] = shared > 1
         info["block_arm"] = eval_blank[s] == "{"
         res.append((v, info))
@@ -451,6 +523,7 @@ def emit_row(out, kind, variant, ns, name, decl_params, info):
         out.append("     r_effect := None;")
     else:
         out.append("     r_effect := Some {| e_off := %d; e_cat := %s; e_callee := %s |};" % (ef[0], ef[1], coq_str(ef[2])))
+    out.append("     r_helper_effect := %s;" % coq_opt(info["helper_effect"], coq_str))
     out.append("     r_std_paths := [%s];" % "; ".join(coq_str(p) for p in info["std_paths"]))
     out.append("     r_block_arm := %s; r_shared_arm := %s |}" % (coq_bool(info["block_arm"]), coq_bool(info["shared_arm"])))
 
@@ -520,18 +593,25 @@ def eval_loop_facts(eval_blank, all_src_blank):
         "loop_stack_check_before_eval_expr": bool(stack and ee and stack.start() < ee.start()),
         "loop_single_eval_expr_call": len(re.findall(r"\beval_expr\(", flat)) == 1,
     }
-    # `ticks` is only ever incremented: no other assignment in any source file
-    writes = []
+    # `ticks` is only ever incremented by one; the only other write allowed is a reset `= 0`
+    # inside `fn eval_tests` (each test of a file may get a fresh budget: finitely many tests)
+    ok = True
     for rel, blank in all_src_blank.items():
+        test_fn = None
+        if rel == "eval.rs":
+            try:
+                test_fn = find_fn_body(blank, "eval_tests")
+            except TranslatorError:
+                test_fn = None
         for m in re.finditer(r"\bticks\s*(\+=|-=|\*=|=(?!=))\s*([^;,}]*)", blank):
             if blank[max(0, m.start() - 1)] in "=!<>":
                 continue
-            writes.append((rel, m.group(1), re.sub(r"\s+", "", m.group(2))))
-    ok = True
-    for rel, op, rhs in writes:
-        if op == "+=" and rhs == "1":
-            continue
-        ok = False
+            op, rhs = m.group(1), re.sub(r"\s+", "", m.group(2))
+            if op == "+=" and rhs == "1":
+                continue
+            if op == "=" and rhs == "0" and test_fn and test_fn[0] < m.start() < test_fn[1]:
+                continue
+            ok = False
     inits = []
     for rel, blank in all_src_blank.items():
         inits += re.findall(r"\bticks\s*:\s*([^,}\n]*)", blank)
@@ -596,8 +676,9 @@ def main():
 
         fvars = enum_variants(values_blank, "BuiltInFunctionKind")
         mvars = enum_variants(ast_blank, "BuiltInMethodKind")
-        frows, ftail = rows_for(eval_raw, eval_blank, "eval_built_in_call", "BuiltInFunctionKind", fvars)
-        mrows, mtail = rows_for(eval_raw, eval_blank, "eval_built_in_method_call", "BuiltInMethodKind", mvars)
+        reach = helper_effect_finder(a.repo)
+        frows, ftail = rows_for(eval_raw, eval_blank, "eval_built_in_call", "BuiltInFunctionKind", fvars, reach)
+        mrows, mtail = rows_for(eval_raw, eval_blank, "eval_built_in_method_call", "BuiltInMethodKind", mvars, reach)
         fnames, fns = parse_display_names(values_raw, values_blank, fvars)
         mreg = parse_method_registration(env_raw, env_blank, mvars)
 
@@ -636,7 +717,8 @@ def main():
         out[-1] += ";" if i + 1 < len(frows) else ""
         js["functions"].append({"variant": v, "ns": fns[v], "name": fnames[v], "decl_params": dp,
                                 "arity": (info["arity"] or {}).get("lit"), "guard": bool(info["guard"]),
-                                "effect": info["effect"][2] if info["effect"] else None})
+                                "effect": info["effect"][2] if info["effect"] else None,
+                                "helper_effect": info["helper_effect"]})
     out.append("].")
     out.append("")
     out.append("Definition method_rows : list row := [")
@@ -648,6 +730,7 @@ def main():
         js["methods"].append({"variant": v, "type": ty, "name": nm, "decl_params": dp,
                               "arity": (info["arity"] or {}).get("lit"), "guard": bool(info["guard"]),
                               "effect": info["effect"][2] if info["effect"] else None,
+                              "helper_effect": info["helper_effect"],
                               "arity_name": (info["arity"] or {}).get("name")})
     out.append("].")
     out.append("")
